@@ -36,6 +36,8 @@ type TierCfg struct {
 	MaxFanout    int            `json:"max_fanout"`
 	TimeoutMs    int            `json:"solver_timeout_ms"`
 	BudgetS      float64        `json:"budget_s"`
+	PreemptAtSync  bool         `json:"preempt_at_sync"`
+	MaxPreemptions int          `json:"max_preemptions"`
 	ReverseMaps  bool           `json:"reverse_maps"`
 	Skip         bool           `json:"skip"`
 }
@@ -198,7 +200,7 @@ func main() {
 			MaxInstr: def64(tc.MaxInstr, 3_000_000), MaxAlloc: defInt(tc.MaxAlloc, 4096), MaxFanout: defInt(tc.MaxFanout, 64),
 			MaxDecisions: defInt(tc.MaxDecisions, 2000), MaxPaths: defInt(tc.MaxPaths, 200000), ReverseMaps: tc.ReverseMaps,
 			Bounds: tc.Bounds, Solver: *solver, TimeoutMs: defInt(tc.TimeoutMs, 20000), Workers: *workers, Seed: seed,
-			Samples: 4, MaxViolPerLabel: 2, NoInitOK: map[string]bool{}, BudgetS: tc.BudgetS, Progress: *verbose,
+			Samples: 4, MaxViolPerLabel: 2, NoInitOK: map[string]bool{}, BudgetS: tc.BudgetS, Progress: *verbose, PreemptAtSync: tc.PreemptAtSync, MaxPreemptions: defInt(tc.MaxPreemptions, 3),
 		}
 		if *tier == "thorough" {
 			cfg.Samples = 12
@@ -271,7 +273,11 @@ func main() {
 		byPkg[r.cfg.Pkg] = append(byPkg[r.cfg.Pkg], r.cfg.Func)
 		for i, v := range r.ex.Viol {
 			f := filepath.Join(replayDir, fmt.Sprintf("%s-%s-%d.json", r.cfg.Name, sanitize(v.Label), i))
-			writeReplay(f, *prop, r.cfg.Func, v.Kind, v.Label, v.Msg, r.tc.Bounds, v.Inputs, v.Observed)
+			rep := 0
+			if v.Sched {
+				rep = 200000
+			}
+			writeReplayN(f, *prop, r.cfg.Func, v.Kind, v.Label, v.Msg, r.tc.Bounds, v.Inputs, v.Observed, rep)
 			pend = append(pend, pending{file: f, h: r, viol: v})
 		}
 		for i := range r.ex.Samples {
@@ -527,6 +533,12 @@ func mergeTier(q, t TierCfg) TierCfg {
 	if t.BudgetS != 0 {
 		out.BudgetS = t.BudgetS
 	}
+	if t.PreemptAtSync {
+		out.PreemptAtSync = true
+	}
+	if t.MaxPreemptions != 0 {
+		out.MaxPreemptions = t.MaxPreemptions
+	}
 	out.ReverseMaps = t.ReverseMaps
 	out.Skip = t.Skip
 	return out
@@ -622,14 +634,19 @@ type replayDoc struct {
 	Bounds   map[string]int `json:"bounds"`
 	Inputs   []sym.Input    `json:"inputs"`
 	Observed []string       `json:"observations"`
+	Repeat   int            `json:"repeat,omitempty"`
 }
 
-func writeReplay(file, prop, harness, kind, label, msg string, bounds map[string]int, in []sym.Input, obs []string) {
-	d := replayDoc{prop, harness, kind, label, msg, bounds, in, obs}
+func writeReplayN(file, prop, harness, kind, label, msg string, bounds map[string]int, in []sym.Input, obs []string, repeat int) {
+	d := replayDoc{prop, harness, kind, label, msg, bounds, in, obs, repeat}
 	b, _ := json.MarshalIndent(d, "", " ")
 	if err := os.WriteFile(file, b, 0o644); err != nil {
 		fatal(2, "replay file: %v", err)
 	}
+}
+
+func writeReplay(file, prop, harness, kind, label, msg string, bounds map[string]int, in []sym.Input, obs []string) {
+	writeReplayN(file, prop, harness, kind, label, msg, bounds, in, obs, 0)
 }
 
 const nativeTestTmpl = `package %s
@@ -772,6 +789,11 @@ func runNative(bin, file string) nativeOutcome {
 }
 
 func nativeConfirms(v *sym.Violation, out nativeOutcome) bool {
+	if v.Sched {
+		// schedule-dependent counterexample: the stress replay runs under the real scheduler,
+		// which may expose the same race through another assertion of the harness first
+		return strings.HasPrefix(out.Outcome, "assert:") || strings.HasPrefix(out.Outcome, "panic:") || strings.HasPrefix(out.Outcome, "crash:") || out.Outcome == "timeout"
+	}
 	switch v.Kind {
 	case "assert":
 		return out.Outcome == "assert:"+v.Label
